@@ -373,7 +373,7 @@ func lastReturnBlock(fn *ssa.Function) *ssa.BasicBlock {
 	for _, b := range fn.Blocks {
 		if r, ok := b.Instrs[len(b.Instrs)-1].(*ssa.Return); ok {
 			n := len(r.Results)
-			if n > 0 && cfgx.IsNilConst(r.Results[n-1]) {
+			if n > 0 && cfgx.IsNilConst(cfgx.ReturnValue(r, n-1)) {
 				last = b
 			}
 		}
